@@ -152,13 +152,16 @@ func c04Run(ci any) Result {
 			}
 		}
 	}
+	// All middleware lists the application hands to echo are windows of ONE backing array with spare capacity behind
+	// each of them (an application that builds its lists from a shared slice): if echo keeps a list it was given and
+	// later appends to it, it writes into the application's memory, i.e. into the lists handed over afterwards.
+	arena := make([]echo.MiddlewareFunc, 0, 4096)
 	mws := func(ids []int) []echo.MiddlewareFunc {
-		// slice with spare capacity on purpose (aliasing between routes would show)
-		out := make([]echo.MiddlewareFunc, 0, len(ids)+3)
+		start := len(arena)
 		for _, id := range ids {
-			out = append(out, mw(id, "", ""))
+			arena = append(arena, mw(id, "", ""))
 		}
-		return out
+		return arena[start:len(arena)]
 	}
 	var groups []*echo.Group
 	var infos []c04GroupInfo
@@ -609,7 +612,7 @@ func c04Gen(r *rand.Rand, tier string) []any {
 		}
 		var gs []ginfo
 		usedPrefix := map[string]bool{}
-		hostNames := []string{"a.com", "b.org"}
+		hostNames := []string{"a.com", "b.org", "a.com:8080", "Api.b.org"}
 		usedHost := map[string]bool{}
 		var paths []string
 		var rewriteFrom []string
@@ -808,7 +811,7 @@ func c04Gen(r *rand.Rand, tier string) []any {
 			case 0:
 				q.Host = "a.com"
 			case 1:
-				q.Host = []string{"b.org", "other.net", "a.com:80"}[r.Intn(3)]
+				q.Host = []string{"b.org", "other.net", "a.com:80", "a.com:8080", "Api.b.org", "api.b.org", "a.com:8080"}[r.Intn(7)]
 			}
 			out = append(out, &c04Case{Ops: ops, Req: q})
 		}
